@@ -27,7 +27,10 @@ fn compare_node(m: &mut Matcher, e: &Earley, prefix: &[u8]) -> Result<(), (Strin
     }
     let mask = match m.compute_mask() {
         Ok(x) => x,
-        Err(_) => return Err(("mask_error_on_viable_prefix".into(), json!({"prefix": bytes_dbg(prefix), "stop": format!("{:?}", m.stop_reason())}))),
+        Err(_) => {
+            note_failed_hist(&prefix.iter().map(|&b| b as u32).collect::<Vec<_>>());
+            return Err(("mask_error_on_viable_prefix".into(), json!({"prefix": bytes_dbg(prefix), "stop": format!("{:?}", m.stop_reason())})));
+        }
     };
     for b in 0..=254usize {
         if mask.is_allowed(b as u32) != nb[b] {
@@ -153,6 +156,11 @@ fn run_case(ctx: &mut Ctx, idx: u64, v1: &Vocab) {
     ctx.rep.inc(&format!("class.{class}"));
     macro_rules! viol {
         ($kind:expr, $detail:expr) => {{
+            if $kind.starts_with("mask_error") && LAST_FAILED_HIST.with(|h| resource_stop_on_replay(&f1, &g, &h.borrow())) {
+                // documented resource-limit stop (the Matcher reports it as InternalError)
+                ctx.rep.inconclusive("resource_stop");
+                return;
+            }
             let d = json!({"grammar": g.text, "class": class, "oracle": $detail});
             let rp = ctx.replay(idx);
             ctx.rep.violation($kind, &tags, d, rp);
@@ -233,7 +241,11 @@ fn run_case(ctx: &mut Ctx, idx: u64, v1: &Vocab) {
                             er.push(b);
                         }
                         let Ok(mask) = me.compute_mask() else {
-                            viol!("mask_error_on_viable_prefix", json!({"prefix": bytes_dbg(pre)}));
+                            if resource_stop_on_replay(&fv, &g, &toks) {
+                                ctx.rep.inconclusive("resource_stop");
+                                continue;
+                            }
+                            viol!("vocab_mask_error_on_viable_prefix", json!({"prefix": bytes_dbg(pre), "tokens": toks, "vocab": v.name, "diagnostic": me.get_error().map(|e| e.lines().next().unwrap_or("").to_string())}));
                         };
                         ctx.rep.inc("vloop_states");
                         for t in 0..v.n() as u32 {
